@@ -223,11 +223,12 @@ func leafName(l string) string {
 
 // gt is a term of the expression IR as a gadget builds it.
 type gt struct {
-	kind string // "var", "const", "bin", "less", "width"
-	name string // var: p<i>; bin: the operator; width: its spelling
-	k    int64  // const
-	a    []*gt  // bin: 2 operands; less: a, b, t, f
-	w    string // bin/less/const: the node's width
+	kind string        // "var", "const", "bin", "less", "width"
+	name string        // var: p<i>; bin: the operator; width: its spelling
+	k    int64         // const
+	a    []*gt         // bin: 2 operands; less: a, b, t, f
+	w    string        // bin/less/const: the node's width
+	fn   *ssa.Function // kind "func": a constructor handed down as a value
 }
 
 func (t *gt) String() string {
@@ -257,11 +258,19 @@ func (x *gExtract) result(f *ssa.Function, env map[*ssa.Parameter]*gt, depth int
 	if depth > 6 {
 		return nil, "helpers nested too deeply"
 	}
-	if len(f.Blocks) != 1 {
-		return nil, ShortName(f) + " is not straight-line code"
+	// one return; any other way out is a panic (a guard on the arguments decides
+	// only whether an expression is built, not which)
+	var ret *ssa.Return
+	for _, b := range f.Blocks {
+		switch t := b.Instrs[len(b.Instrs)-1].(type) {
+		case *ssa.Return:
+			if ret != nil {
+				return nil, ShortName(f) + " returns in more than one place"
+			}
+			ret = t
+		}
 	}
-	ret, ok := f.Blocks[0].Instrs[len(f.Blocks[0].Instrs)-1].(*ssa.Return)
-	if !ok || len(ret.Results) != 1 {
+	if ret == nil || len(ret.Results) != 1 {
 		return nil, ShortName(f) + " does not return one expression"
 	}
 	return x.termOf(ret.Results[0], env, depth)
@@ -308,6 +317,14 @@ func (x *gExtract) termOf(v ssa.Value, env map[*ssa.Parameter]*gt, depth int) (*
 			return nil, "method " + y.Call.Method.Name() + " is called on an expression"
 		}
 		g := y.Call.StaticCallee()
+		if g == nil {
+			// a constructor handed down as a value
+			if p, ok := y.Call.Value.(*ssa.Parameter); ok && env[p] != nil && env[p].kind == "func" {
+				g = env[p].fn
+			} else if f, _ := ResolveFunc(y.Call.Value); f != nil {
+				g = f
+			}
+		}
 		if g == nil {
 			return nil, "a function value is called"
 		}
@@ -362,6 +379,12 @@ func (x *gExtract) termOf(v ssa.Value, env map[*ssa.Parameter]*gt, depth int) (*
 						return nil, e
 					}
 					env2[p] = t
+				} else if _, isFn := p.Type().Underlying().(*types.Signature); isFn {
+					if q, ok := args[i].(*ssa.Parameter); ok && env[q] != nil && env[q].kind == "func" {
+						env2[p] = env[q]
+					} else if f, _ := ResolveFunc(args[i]); f != nil {
+						env2[p] = &gt{kind: "func", fn: f}
+					}
 				}
 			}
 			return x.result(g, env2, depth+1)
